@@ -418,3 +418,18 @@ func (g *Gram) NTOrder() []int {
 	}
 	return out
 }
+
+// WithMarker returns the lalr.Grammar of g in which a state marker (".m") is inserted into
+// rule `rule` before RHS position `pos` (pos == len(RHS) puts it at the end). State markers do
+// not count towards the rule length and must not influence parsing.
+func (g *Gram) WithMarker(inputs []Input, rule, pos int) *lalr.Grammar {
+	lg := g.ToLalr(inputs)
+	lg.Markers = []string{"m"}
+	rhs := lg.Rules[rule].RHS
+	out := make([]lalr.Sym, 0, len(rhs)+1)
+	out = append(out, rhs[:pos]...)
+	out = append(out, lalr.Marker(0))
+	out = append(out, rhs[pos:]...)
+	lg.Rules[rule].RHS = out
+	return lg
+}
